@@ -188,10 +188,151 @@ func c19Twins(r *Run, t *tape.Tape) {
 	}
 }
 
+// c19Concurrent: several request handlers decode at the same time, each from
+// a buffer of its own into a destination of its own.  What another goroutine
+// is decoding at that moment is history like any other: every result equals
+// what the same bytes give when decoded alone.  The interleaving of the
+// decoders (every statement of go-cose is a preemption point) is drawn from
+// the tape before the tasks start.
+func c19Concurrent(r *Run, t *tape.Tape) {
+	pool := c19Pool(r, t)
+	if t.Bool(1, 2, "c19.conc.deep") {
+		// a long chain of nested countersignatures: decoders that call
+		// themselves, so that several are in flight at different depths
+		ent := NewEntropy(uint64(t.U32("entropy.seed")))
+		spec := genSpec(t, SpecOpts{MaxExtra: 1, MaxSigner: 1, Cheap: true})
+		depth := 4 + t.Choose(9, "c19.conc.depth")
+		w := r.ForeignWire(t, spec, genKnobs(t), ent, false, depth, false)
+		pool = append(pool, c19Item{w.B, decoderForKind(spec.Kind).Name})
+		r.Probe("concurrent-decodes-of-deep-countersignature-chain")
+	}
+	if len(pool) == 0 {
+		r.Outcome("no-traffic")
+		return
+	}
+	type job struct {
+		dec  *Decoder
+		src  []byte
+		buf  []byte
+		val  any
+		err  error
+		lp   string
+		done bool
+	}
+	ntasks := 2 + t.Choose(3, "c19.conc.tasks")
+	herd := t.Bool(1, 3, "c19.conc.herd")
+	pick := func() *job {
+		it := pool[t.Choose(len(pool), "c19.conc.item")]
+		var dec *Decoder
+		for i := range WireDecoders {
+			if WireDecoders[i].Name == it.dec {
+				dec = &WireDecoders[i]
+			}
+		}
+		if dec == nil || t.Bool(1, 5, "c19.conc.anydec") {
+			dec = &WireDecoders[t.Choose(len(WireDecoders), "c19.conc.dec")]
+		}
+		return &job{dec: dec, src: it.b}
+	}
+	plans := make([][]*job, ntasks)
+	var names []string
+	for ti := range plans {
+		n := 1 + t.Choose(3, "c19.conc.njobs")
+		for j := 0; j < n; j++ {
+			var jb *job
+			if herd && ti > 0 && j < len(plans[0]) {
+				jb = &job{dec: plans[0][j].dec, src: plans[0][j].src}
+			} else {
+				jb = pick()
+			}
+			jb.buf = append(make([]byte, 0, len(jb.src)+16), jb.src...)
+			jb.val = jb.dec.New()
+			plans[ti] = append(plans[ti], jb)
+			names = append(names, fmt.Sprintf("%d:%s(%dB)", ti, jb.dec.Name, len(jb.src)))
+		}
+	}
+	cfg := SchedConfig{Mode: t.Choose(2, "c19.sched.mode"), First: t.Choose(ntasks, "c19.sched.first"), CheckEvery: -1}
+	if herd && t.Bool(1, 2, "c19.sched.lockstep") {
+		cfg.Mode = 2
+	}
+	if cfg.Mode == 0 {
+		np := 1 + t.Choose(8, "c19.sched.npre")
+		at := int64(0)
+		for i := 0; i < np; i++ {
+			at += int64(1 + t.Choose(300, "c19.sched.at"))
+			cfg.PreAt = append(cfg.PreAt, at)
+			cfg.PreTo = append(cfg.PreTo, t.Choose(ntasks, "c19.sched.to"))
+		}
+	} else if cfg.Mode == 1 {
+		cfg.Seed = uint64(t.U32("c19.sched.seed"))
+		cfg.Stick = []uint32{0, 500, 900, 990}[t.Choose(4, "c19.sched.stick")]
+	}
+	r.Op("CONCURRENT_DECODE", "%d tasks %v, schedule mode=%d first=%d preemptions=%d herd=%v", ntasks, names, cfg.Mode, cfg.First, len(cfg.PreAt), herd)
+	tasks := make([]func(), ntasks)
+	for ti := range plans {
+		jobs := plans[ti]
+		tasks[ti] = func() {
+			for _, jb := range jobs {
+				jb := jb
+				if lp := call(func() { jb.err = jb.dec.Into(jb.val, jb.buf) }); lp != nil {
+					jb.lp = fmt.Sprintf("%v in %s", lp.Value, lp.Frame)
+				}
+				jb.done = true
+			}
+		}
+	}
+	SetPermHook(nil) // the tasks must not touch the tape: canonical map order inside the block and in the reference decodes
+	res := RunConcurrent(cfg, tasks, func() string { return "" })
+	if res.Aborted {
+		r.Skip("schedule infeasible: a task blocked outside a yield point")
+	}
+	r.Steps += int(res.Steps)
+	r.Logf("schedule hash %x steps %d switches %d", res.Hash, res.Steps, res.Switches)
+	r.sched = append(r.sched, res.Hash)
+	if res.Switches > 0 {
+		r.Fired("preempt@site")
+	}
+	r.Fired("history.concurrent-decodes")
+	r.Outcome(fmt.Sprintf("concurrent-decodes/tasks=%d/switches=%s", ntasks, bucket(res.Switches)))
+	for ti, jobs := range plans {
+		for j, jb := range jobs {
+			r.Check()
+			if jb.lp != "" {
+				r.Fail("panic-in-concurrent-decode/"+jb.dec.Name, "task %d decode %d panicked: %s\n%s", ti, j, jb.lp, hexShort(jb.src))
+				return
+			}
+			want := jb.dec.New()
+			var werr error
+			r.Lib(func() { werr = jb.dec.Into(want, append([]byte{}, jb.src...)) })
+			if (werr == nil) != (jb.err == nil) {
+				r.Fail("decode-depends-on-concurrent-decodes/"+jb.dec.Name, "task %d decode %d (%s, %d bytes): alone the decoder answers %v, while %d other tasks were decoding it answered %v\nschedule: mode=%d switches=%d hash=%x\n%s", ti, j, jb.dec.Name, len(jb.src), werr, ntasks-1, jb.err, cfg.Mode, res.Switches, res.Hash, hexShort(jb.src))
+				return
+			}
+			if werr == nil {
+				if a, b := Snapshot(want), Snapshot(jb.val); a != b {
+					r.Fail("decode-depends-on-concurrent-decodes/"+jb.dec.Name, "task %d decode %d (%s): the value decoded while other tasks were decoding differs from the value the same bytes give alone\n%s", ti, j, jb.dec.Name, diffSnapshot(a, b))
+					return
+				}
+			} else if a, b := Snapshot(jb.dec.New()), Snapshot(jb.val); a != b {
+				r.Fail("failed-decode-modifies-destination/"+jb.dec.Name+"/concurrent", "task %d decode %d (%s) was refused and left something in its fresh destination\n%s", ti, j, jb.dec.Name, diffSnapshot(a, b))
+				return
+			}
+			if !bytes.Equal(jb.buf, jb.src) {
+				r.Fail("decoder-writes-to-input/"+jb.dec.Name+"/concurrent", "task %d decode %d (%s): the input buffer differs after the decode", ti, j, jb.dec.Name)
+				return
+			}
+		}
+	}
+}
+
 func scenarioC19(r *Run) {
 	t := r.T
 	if t.Bool(1, 20, "c19.neartwin") {
 		c19Twins(r, t)
+		return
+	}
+	if t.Bool(1, 12, "c19.concurrent") {
+		c19Concurrent(r, t)
 		return
 	}
 	pool := c19Pool(r, t)
